@@ -180,6 +180,18 @@ def run_check(prop: Prop, tier, seed, replay=None):
     else:
         try:
             cases = prop.corpus() + prop.cases(rng, tier)
+            from . import fingerprints
+            stale = fingerprints.stale_for(pid)
+            if stale:
+                # the code this property is anchored in changed since the pinned commit: the model
+                # may be stale there; draw the random cases from two further seeds as well
+                notes.append("stale fingerprints: " + ", ".join(stale))
+                have = {c.line for c in cases}
+                for extra_seed in (seed + 1, seed + 2):
+                    for c in prop.cases(C.SplitMix64(extra_seed), tier):
+                        if c.line not in have:
+                            have.add(c.line)
+                            cases.append(c)
         except Exception as e:  # the machinery itself must never be the reason for a non-zero exit
             import traceback
             obligations.append(("case generation ran", False, traceback.format_exc()[-900:]))
@@ -329,6 +341,7 @@ def run_check(prop: Prop, tier, seed, replay=None):
             "model_timeouts": model_timeouts,
             "samples": samples,
             "traces_validated_against_impl": len(model),
+            "stale_fingerprints": [x for x in notes if x.startswith("stale fingerprints")],
         },
         "assumptions": list(prop.trusted),
         "wall_s": round(wall, 2),
